@@ -179,9 +179,11 @@ def do_detect_copy(sid, props):
     copy = os.path.join(work, "repo")
     shutil.rmtree(copy, ignore_errors=True)
     os.makedirs(copy)
-    for item in ("src", "Cargo.toml", "Cargo.lock"):
-        src = os.path.join("/repo", item)
-        (shutil.copytree if os.path.isdir(src) else shutil.copy)(src, os.path.join(copy, item))
+    # the COMMITTED tree of /repo (its working tree may be patched by a concurrent `detect`)
+    rc, out = sh(f"git -C /repo archive HEAD src Cargo.toml Cargo.lock | tar -x -C {copy}")
+    if rc != 0:
+        print(out)
+        return 2
     sh("git init -q .", cwd=copy)
     rc, out = sh(f"git apply {os.path.join(d, 'patch.diff')}", cwd=copy)
     if rc != 0:
